@@ -49,6 +49,9 @@ fn list<T: ToString>(v: &[T]) -> String {
 fn ids(v: &[ValidatorIndex]) -> Vec<usize> {
     v.iter().map(|x| x.as_usize()).collect()
 }
+fn brief(c: &[usize]) -> String {
+    if c.len() <= 80 { format!("{c:?}") } else { format!("{:?}…({} seats)", &c[..80], c.len()) }
+}
 fn short(st: &[u64]) -> String {
     if st.len() <= 12 { format!("{st:?}") } else { format!("{:?}…(n={})", &st[..12], st.len()) }
 }
@@ -142,6 +145,8 @@ fn stakes(shape: &str, n: usize, k: u64, rng: &mut Rng) -> Vec<u64> {
         "whale54" => (0..n).map(|i| if i == 0 { 1u64 << 54 } else { 1 }).collect(),
         "pow53" => (0..n).map(|_| (1u64 << 53) / n as u64 + rng.below(1 << 40)).collect(),
         "somezero" => (0..n).map(|i| if i % 3 == 1 && n > 1 { 0 } else { rng.range(1, 1000) }).collect(),
+        // one validator holds 99 % of the stake (ratio to the lightest one: 99·(n−1))
+        "dominant" => { let w = rng.below(n as u64) as usize; (0..n).map(|i| if i == w { 99 * (n as u64 - 1).max(1) } else { 1 }).collect() }
         _ => (0..n).map(|_| rng.range(1, 1 << 32)).collect(),
     }
 }
@@ -153,6 +158,9 @@ struct Ctx<'a> {
     class: u64,
     /// failures recorded so far per (oracle key, input class)
     recorded: std::collections::BTreeMap<String, u32>,
+    /// oracle-only section: the operations of the case are not written to the compared stream (committees of 10^5 seats
+    /// are too long for the line protocol to be worth it; the model's `decayValid` is the same predicate as the oracle)
+    mute: bool,
 }
 
 impl Ctx<'_> {
@@ -174,7 +182,12 @@ impl Ctx<'_> {
         self.rec.begin_case(tag);
         self.class = fnv(0, tag);
         let t: u128 = st.iter().map(|&s| s as u128).sum();
-        self.rec.step(&format!("stakes {}", list(st)), &format!("n {} total {t}", st.len()));
+        self.step(&format!("stakes {}", list(st)), &format!("n {} total {t}", st.len()));
+    }
+    fn step(&mut self, op: &str, out: &str) {
+        if !self.mute {
+            self.rec.step(op, out);
+        }
     }
     fn seeds(&self) -> usize {
         if self.thorough { 6 } else { 4 }
@@ -535,10 +548,30 @@ fn decay_case(cx: &mut Ctx, rng: &mut Rng, shape: &str, st: &[u64], num: u64, de
                 }
                 let cap_ok = cnt.iter().all(|&x| x <= cap);
                 let valid = members_ok(n, k, &c) && c.iter().all(|&v| st[v] > 0) && cap_ok;
-                cx.rec.step(&format!("draw decay {num} {den} {k} {}", list(&c)), &format!("valid {valid} cap {cap}"));
-                cx.rec.oracle(members_ok(n, k, &c), "decay-size-or-member", || format!("{desc}: committee {c:?}"));
-                cx.rec.oracle(cap_ok, "decay-cap", || format!("{desc}: committee {c:?} exceeds the seat cap {cap}"));
-                cx.rec.oracle(c.iter().all(|&v| v >= n || st[v] > 0), "decay-zero-weight-drawn", || format!("{desc}: committee {c:?} contains a zero-stake validator"));
+                cx.step(&format!("draw decay {num} {den} {k} {}", list(&c)), &format!("valid {valid} cap {cap}"));
+                cx.rec.oracle(members_ok(n, k, &c), "decay-size-or-member", || format!("{desc}: committee {}", brief(&c)));
+                cx.rec.oracle(cap_ok, "decay-cap", || format!("{desc}: committee {} exceeds the seat cap {cap} = ceil(max_samples): seats per validator {cnt:?}", brief(&c)));
+                cx.rec.oracle(c.iter().all(|&v| v >= n || st[v] > 0), "decay-zero-weight-drawn", || format!("{desc}: committee {} contains a zero-stake validator", brief(&c)));
+            }
+            // the stateful single-seat interface (`SamplingStrategy::sample`, no reset in between): the same cap holds for
+            // the seats handed out since the last reset
+            if feasible {
+                a.reset();
+                let seed = rng.next();
+                let got = catch(|| { let mut r = Rng(seed); (0..k).map(|_| a.sample(&mut r).as_usize()).collect::<Vec<usize>>() });
+                a.reset();
+                if let Ok(c) = got {
+                    let mut cnt = vec![0usize; n];
+                    for &v in &c {
+                        if v < n {
+                            cnt[v] += 1;
+                        }
+                    }
+                    cx.rec.count("decay:successive-samples-ok");
+                    cx.rec.oracle(cnt.iter().all(|&x| x <= cap), "decay-cap", || format!("{desc}: {k} successive sample() calls since the last reset (seed {seed}) exceed the seat cap {cap} = ceil(max_samples): seats per validator {cnt:?}"));
+                } else {
+                    cx.rec.count("decay:successive-samples-panic(see decay-sample-panics)");
+                }
             }
             cx.rec.end_case(cx.class, true);
         }
@@ -556,7 +589,7 @@ fn main() {
     let sk = signature::SecretKey::new(&mut rng);
     let vsk = aggsig::SecretKey::new(&mut rng);
     let env = Env { pk: sk.to_pk(), vpk: vsk.to_pk() };
-    let mut cx = Ctx { rec: Recorder::new(), env: &env, thorough: args.thorough, class: 0, recorded: Default::default() };
+    let mut cx = Ctx { rec: Recorder::new(), env: &env, thorough: args.thorough, class: 0, recorded: Default::default(), mute: false };
 
     let mut ks: Vec<u64> = vec![1, 2, 3, 10, 64, 100, 200];
     ks.push(rng.range(4, 300));
@@ -610,6 +643,22 @@ fn main() {
             }
         }
     }
+    // seat caps beyond one byte (and, oracle only, beyond two bytes): committees larger than the cap, a validator heavy enough
+    // to be drawn more often than the cap allows. (n, max_samples = num/den, k): k stays well below n * cap.
+    let mut big: Vec<(usize, u64, u64, usize)> = vec![(3, 256, 1, 600), (5, 511, 2, 1000), (8, 300, 1, 1000), (17, 1000, 1, 2000), (4, 257, 1, 700)];
+    big.push((rng.range(3, 10) as usize, rng.range(256, 700), 1, rng.range(701, 1500) as usize));
+    for &(n, num, den, k) in &big {
+        for shape in ["dominant", "whale", *rng.pick(&["equal1", "small", "random"])] {
+            let st = stakes(shape, n, k as u64, &mut rng);
+            decay_case(&mut cx, &mut rng, shape, &st, num, den, k);
+        }
+    }
+    cx.mute = true;
+    for shape in ["dominant", "whale"] {
+        let st = stakes(shape, 3, 1, &mut rng);
+        decay_case(&mut cx, &mut rng, shape, &st, 65536, 1, 100_000);
+    }
+    cx.mute = false;
     // the concrete inputs named in DESIGN.md §6/§7 (D8, D9, D18)
     partition_case(&mut cx, &mut rng, "equal1", &[1; 6], 4);
     fa1_case(&mut cx, &mut rng, "equal1", &[1; 100], 64, true);
